@@ -322,8 +322,10 @@ def main(argv=None):  # pylint: disable=too-many-locals,too-many-branches,too-ma
         'wall_s': round(wall, 2),
         'violations': len(by_key),
     }
-    os.makedirs(os.path.join(bootstrap.VERIF, 'evidence'), exist_ok=True)
-    with open(os.path.join(bootstrap.VERIF, 'evidence', '%s.json' % prop), 'w') as handle:
+    # VERIF_EVIDENCE_DIR: development aid (runs against scratch copies must not overwrite the committed evidence)
+    evidence_dir = os.environ.get('VERIF_EVIDENCE_DIR') or os.path.join(bootstrap.VERIF, 'evidence')
+    os.makedirs(evidence_dir, exist_ok=True)
+    with open(os.path.join(evidence_dir, '%s.json' % prop), 'w') as handle:
         json.dump(evidence, handle, indent=1, sort_keys=True, default=repr)
         handle.write('\n')
 
